@@ -30,6 +30,9 @@ CLAIMED = {
  "C09": dict(text="Static analysis. Decides the shutdown protocol for every body of the interpreter crates (linear-resource analysis of ShutdownSignal carriers, signal provenance, execution-stack pairing), the unsafe inventory with its layout preconditions, and enumerates potential-panic sites reachable from VM::run, each discharged by a checked guard / audited argument or reported. Termination and std-internal panics outside the listed kinds are not decided.",
              note=TRUST+"Call graph over-approximates (class-hierarchy resolution of trait calls, fn-pointer registry). Audited discharges without a re-checked `requires` clause are arguments by reading.",
              tech="linear-resource (typestate) dataflow on MIR + call-graph reachability + potential-panic-site enumeration with guard discharge"),
+ "C16": dict(text="Static analysis: the deserializer's table (op_code = 0..=255, exhaustive) and the serializer's table (every Op variant x Var x move_h x fast/slow path, plus the u32_var/i32_var offset tables) are extracted from MIR by finite-domain specialisation and compared cell by cell: variant, constants, operand widths, signedness and field order; opcodes 250-255 are rejected. Axis partition of w/x/y/z agrees across Values::update and VarRemover, which passes all other operations through. Reader totality is decided by enumerating and discharging every potential-panic site of deserialize and its callees. Not decided: value-level boundary arithmetic of the 3-byte signed form, 'consumes every byte', position preservation as a value statement.",
+             note=TRUST+"DVI opcode semantics are taken from the reader/writer pair themselves (agreement), plus DVI's fnt_def/string layouts transcribed by hand.",
+             tech="decision-table extraction (abstract interpretation of MIR over finite key domains) + table agreement + potential-panic-site discharge"),
  "C20": dict(text="Static analysis. The concurrent clause (tags pairwise distinct under every schedule; a static tag resolves to one value) is decided by lock discipline in Tag::new — one Mutex guard, value read and checked write-back under it, strictly monotone — plus who-may rules (the counter, Tag construction, forging impls, StaticTag's OnceLock::get_or_init). For the containers only the API surface is decided (no mutable bypass: who-may-write + signatures, and compile_fail witnesses in the thorough tier). Model equivalence of the scoped map, interner correctness under hash collisions and KMP match positions are behavioural and NOT decided.",
              note=TRUST+"Mutual exclusion and OnceLock's once-semantics are std guarantees (trusted).",
              tech="lock-discipline / def-use rule on MIR + who-may-access rules + compile_fail witnesses"),
